@@ -38,7 +38,7 @@ type vxC18NegCase struct {
 func TestVxC18Negotiation(t *testing.T) {
 	vx.Check(t, vx.Prop{
 		ID: "C18", Part: "TestVxC18Negotiation",
-		Rule: "configured compressor {none, snappy, lz4(independent codec behind the Compressor interface)} x SUPPORTED COMPRESSION {key absent, [], [snappy], [lz4], [lz4,snappy], [other], [SNAPPY]} x protocol 1..5 x responses compressed or not; 1..6 queries with statements of 0..3000 bytes; oracle at the node (independent decoder): OPTIONS and STARTUP never flagged; STARTUP carries COMPRESSION=name iff configured and advertised; every later request is flagged and compressed iff that, and decodes; queries succeed; non-trivial = a configured compressor that is not advertised, or several advertised; distinct by the case",
+		Rule: "configured compressor {none, snappy, lz4(independent codec behind the Compressor interface)} x SUPPORTED COMPRESSION {key absent, [], [snappy], [lz4], [lz4,snappy], [other], [SNAPPY]} x protocol 1..5 x responses compressed or not; 1..6 queries with statements of 0..3000 bytes; oracle at the node (independent decoder): OPTIONS and STARTUP never flagged; STARTUP carries COMPRESSION=name iff configured and advertised; every later request is flagged and compressed iff that, and decodes; queries succeed; an EVENT frame pushed by the node (compressed when responses are) is read and leaves every connection open; non-trivial = a configured compressor that is not advertised, or several advertised; distinct by the case",
 		Draw: func(t *rapid.T) interface{} {
 			c := &vxC18NegCase{Proto: rapid.IntRange(1, 5).Draw(t, "proto"), Configured: rapid.SampledFrom([]string{"", "snappy", "lz4"}).Draw(t, "conf"),
 				Queries: rapid.IntRange(1, 6).Draw(t, "q"), BodyLen: rapid.SampledFrom([]int{0, 10, 300, 3000}).Draw(t, "len"), CompressResponses: rapid.Bool().Draw(t, "cresp")}
@@ -100,6 +100,29 @@ func TestVxC18Negotiation(t *testing.T) {
 				if err := s.Query("LIST " + strings.Repeat("x", c.BodyLen) + itoa(i)).Exec(); err != nil {
 					s.Close()
 					return fmt.Errorf("query %d failed (compressor %q, advertised %v, negotiated %v): %v", i, c.Configured, c.Advertised, expect, err)
+				}
+			}
+			// a frame the server pushes (EVENT, stream -1) is compressed like any other response once compression
+			// is negotiated: it must be read, not taken for garbage (the connection stays open)
+			if c.Proto >= 2 {
+				ev := &cqlspec.Response{EventType: "STATUS_CHANGE", Change: "UP", AddrHex: "0a000001", Port: 9042}
+				if n := node.SendEvent(ev); n != 1 {
+					s.Close()
+					return fmt.Errorf("harness: %d registered connections, want 1", n)
+				}
+				if err := s.Query("LIST after-event").Exec(); err != nil {
+					s.Close()
+					return fmt.Errorf("query after a pushed EVENT frame failed: %v", err)
+				}
+				time.Sleep(2 * time.Millisecond)
+				for _, sc := range node.Conns() {
+					if sc.Client.Closed() {
+						s.Close()
+						return fmt.Errorf("the driver closed connection %d after the node pushed an EVENT frame (compression negotiated=%v, responses compressed=%v)", sc.ID, expect, c.CompressResponses)
+					}
+				}
+				if expect && c.CompressResponses {
+					k.Class("compressed EVENT pushed")
 				}
 			}
 			s.Close()
